@@ -163,7 +163,8 @@ func VerifC03_Claim() {
 		verifCover("refused")
 		verifAssert(esc1.Cmp(esc0) == 0 && to1.Cmp(to0) == 0 && sup1.Cmp(sup0) == 0, "a refused claim moves nothing")
 		verifAssert(after.State == state && queued == (state == types.Open), "a refused claim leaves the contract as it was")
-		verifAssert(s1.IncomingSupply.Amount.Equal(s0.IncomingSupply.Amount) && s1.OutgoingSupply.Amount.Equal(s0.OutgoingSupply.Amount) && s1.CurrentSupply.Amount.Equal(s0.CurrentSupply.Amount), "a refused claim leaves the counters")
+		verifAssert(s1.IncomingSupply.Amount.Equal(s0.IncomingSupply.Amount) && s1.OutgoingSupply.Amount.Equal(s0.OutgoingSupply.Amount) && s1.CurrentSupply.Amount.Equal(s0.CurrentSupply.Amount) &&
+			s1.TimeLimitedCurrentSupply.Amount.Equal(s0.TimeLimitedCurrentSupply.Amount) && s1.TimeElapsed == s0.TimeElapsed, "a refused claim leaves the counters")
 		if state == types.Open && good {
 			// the only legitimate reasons left: the cross-chain supply checks
 			verifAssert(sh.transfer && sh.dir == types.Incoming, "an open contract with the right secret is only refused by a supply limit")
@@ -193,6 +194,11 @@ func VerifC03_Claim() {
 		verifAssert(verifSub(esc0, esc1).Cmp(a) == 0 && verifSub(sup0, sup1).Cmp(a) == 0, "outgoing transfer: exactly the amount is burned from escrow")
 		verifAssert(verifSub(s0.OutgoingSupply.Amount.BigInt(), s1.OutgoingSupply.Amount.BigInt()).Cmp(a) == 0 && verifSub(s0.CurrentSupply.Amount.BigInt(), s1.CurrentSupply.Amount.BigInt()).Cmp(a) == 0, "outgoing and current counters fall together")
 		verifAssert(s1.OutgoingSupply.Amount.BigInt().Cmp(s1.CurrentSupply.Amount.BigInt()) <= 0, "H6 outgoing never exceeds current")
+	}
+	if !(sh.transfer && sh.dir == types.Incoming) {
+		// the period counter is the amount completed by INCOMING transfers in the running period: nothing else moves it
+		verifAssert(s1.TimeLimitedCurrentSupply.Amount.Equal(s0.TimeLimitedCurrentSupply.Amount) && s1.TimeElapsed == s0.TimeElapsed && s1.IncomingSupply.Amount.Equal(s0.IncomingSupply.Amount),
+			"only a completed incoming transfer moves the period counter")
 	}
 }
 
@@ -317,6 +323,13 @@ func VerifC03_Refund() {
 		verifAssert(verifSub(s0.OutgoingSupply.Amount.BigInt(), s1.OutgoingSupply.Amount.BigInt()).Cmp(a) == 0, "outgoing counter released")
 	}
 	verifAssert(s1.CurrentSupply.Amount.Equal(s0.CurrentSupply.Amount), "refund leaves current supply")
+	verifAssert(s1.TimeLimitedCurrentSupply.Amount.Equal(s0.TimeLimitedCurrentSupply.Amount) && s1.TimeElapsed == s0.TimeElapsed, "refund leaves the period counter and clock")
+	if sh.dir != types.Incoming || !sh.transfer {
+		verifAssert(s1.IncomingSupply.Amount.Equal(s0.IncomingSupply.Amount), "only an incoming transfer's refund moves the incoming counter")
+	}
+	if sh.dir != types.Outgoing || !sh.transfer {
+		verifAssert(s1.OutgoingSupply.Amount.Equal(s0.OutgoingSupply.Amount), "only an outgoing transfer's refund moves the outgoing counter")
+	}
 }
 
 // C04 limit period: one begin-block clock update over TWO assets with arbitrary period state.  Each
